@@ -5,6 +5,7 @@
 import YaraModel.Lemmas.ReAlgebra
 import YaraModel.Lemmas.ReChain
 import YaraModel.Lemmas.ReEmit
+import YaraModel.Lemmas.ReAtoms
 namespace YaraModel.C02
 open YaraModel.Re
 
@@ -209,5 +210,27 @@ example : HexAst (.cat (.lit 0x41) (.cat (.alt (.lit 0x42) (.cat (.masked 0x03 0
 open YaraModel.ReVm YaraModel.ReEmit in
 /-- instance: `41 ( 42 | ?3 44 ) [1-2] ~45` on `41 13 44 00 00 46`: the VM run on the emitted code reports lengths 6 and 5 -/
 example : exec { code := (emitCode false (.cat (.lit 0x41) (.cat (.alt (.lit 0x42) (.cat (.masked 0x03 0x0F) (.lit 0x44))) (.cat (.rangeAny 1 2 false) (.notLit 0x45))))).toArray, entry := 0, buf := #[0x41, 0x13, 0x44, 0x00, 0x00, 0x46], start := 0, fl := { exhaustive := true, dotall := true } } = .done 6 [5, 6] := by decide
+
+open YaraModel.ReAtoms in
+/-- `reAtoms_cover_partial`: the atoms extracted for a hex string / regular expression cover its matches.  `chosen q r` is the
+    model of `_yr_atoms_extract_from_re` + `_yr_atoms_choose` (the walk over the expression with the sliding 4-node window
+    and `_yr_atoms_trim`, the tree of OR / AND / leaf nodes, the choice by quality) for an ARBITRARY quality function `q` —
+    i.e. for every window and every OR child the heuristic could pick.  For ALL expressions (every node kind: runs through
+    groups, `+` bodies and the first copies of counted repeats; alternations; anything else ends a run), ALL buffers, in byte
+    mode without nocase: every match [p, q') of the expression contains an occurrence of one of the chosen masked atoms
+    (every node of the atom: byte & mask = value) — unless nothing was chosen, and then parser.c gives the string the
+    zero-length atom that is a candidate at every offset.  The model with the quality function of atoms.c is compared with
+    the atoms the real compiler inserts (hook H3) and with the code positions of their automaton entries on every
+    generated non-literal unchained string.
+    Full statement aimed at (not yet proved): the same after `_yr_atoms_expand_wildcards`, for the case variants of nocase
+    strings and the widened atoms of wide strings, and with the POSITION — the atom occurs where the backward code, run
+    from the atom's code position, reaches p (at specification level: `decompose`). -/
+theorem reAtoms_cover_partial (q : Atom → Int) (fl : Flags) (hw : fl.wide = false) (hn : fl.nocase = false) (buf : Bytes) (r : Re)
+    (p q' : Nat) (hm : Re.Matches fl buf r p q') : chosen q r = [] ∨ ∃ a ∈ chosen q r, Occurs buf a p q' :=
+  chosen_cover q hw hn r hm
+
+open YaraModel.ReAtoms in
+/-- instance: `10 ?? 41 42 43 ?? 20 30` — the heuristic of atoms.c picks the interior window `41 42 43` (leaf 2) -/
+example : (chosen quality (.cat (.lit 0x10) (.cat .any (.cat (.lit 0x41) (.cat (.lit 0x42) (.cat (.lit 0x43) (.cat .any (.cat (.lit 0x20) (.lit 0x30))))))))).map (fun a => a.map (·.byte)) = [[0x41, 0x42, 0x43]] := by decide
 
 end YaraModel.C02
